@@ -661,6 +661,12 @@ func globalStores(fn *ssa.Function) []GlobalStore {
 					if g, ok := globalLoad(lk.X); ok {
 						out = append(out, GlobalStore{fn, in, g, x.Value, x.Key, "mapupdate2"})
 					}
+				} else if u, ok := x.Map.(*ssa.UnOp); ok && u.Op == token.MUL { // a[i][k] = v with a an array of maps
+					if ia, ok := u.X.(*ssa.IndexAddr); ok {
+						if g, ok := ia.X.(*ssa.Global); ok {
+							out = append(out, GlobalStore{fn, in, g, x.Value, x.Key, "mapupdate2"})
+						}
+					}
 				}
 			case ssa.CallInstruction:
 				if isBuiltinCall(x, "delete") || isBuiltinCall(x, "clear") {
